@@ -4,10 +4,15 @@
 # removed afterwards; stores the confirmed change under /verif/seeded/<Cxx>-<mN>/.
 set -u
 ID=$1; M=$2; TIER=${3:-quick}
+# VERIF_DIR: the copy of /verif whose ./check is run (default /verif); EVAL_TAG: suffix of the scratch names, so that
+# several streams can run side by side, each in its own copy; EVAL_SRC=seeded: take the patch from /verif/seeded
+VERIF_DIR=${VERIF_DIR:-/verif}
+TAG=${EVAL_TAG:-}
 SRC=/tmp/seed-out/$ID/$M
-WT=/tmp/wt-eval-$ID-$M
+[ "${EVAL_SRC:-}" = seeded ] && SRC=/verif/seeded/$ID-$M
+WT=/tmp/wt-eval$TAG-$ID-$M
 OUT=/verif/seeded/$ID-$M
-LOG=/tmp/seed-eval/$ID-$M
+LOG=/tmp/seed-eval$TAG/$ID-$M
 mkdir -p "$LOG" "$OUT"
 git -C /repo worktree remove --force "$WT" >/dev/null 2>&1
 rm -rf "$WT"
@@ -18,9 +23,9 @@ DEMO=$(ls "$SRC"/demo*.py 2>/dev/null | head -1)
 if ! git -C "$WT" apply "$SRC/patch.diff" 2>"$LOG/apply.err"; then echo "$ID $M: patch does not apply"; cat "$LOG/apply.err"; fi
 ( cd "$LOG" && PYTHONPATH=$WT PYTHONHASHSEED=0 timeout 300 /venv/bin/python "$DEMO" >demo_patched.out 2>&1; echo $? >demo_patched.rc )
 ( cd "$WT" && timeout 900 /venv/bin/python -m pytest -ra -q -p no:cacheprovider --timeout=900 --continue-on-collection-errors 2>&1 | tail -1 >"$LOG/suite.out" )
-( cd /verif && VERIF_REPO=$WT timeout 3000 ./check "$ID" --tier "$TIER" >"$LOG/check.out" 2>&1; echo $? >"$LOG/check.rc" )
+( cd "$VERIF_DIR" && VERIF_REPO=$WT timeout 3000 ./check "$ID" --tier "$TIER" >"$LOG/check.out" 2>&1; echo $? >"$LOG/check.rc" )
 REPLAY=$(grep -o 'replay=[^ ]*' "$LOG/check.out" | head -1 | cut -d= -f2)
 [ -n "$REPLAY" ] && [ -f "$REPLAY" ] && cp "$REPLAY" "$LOG/replay.json"
 git -C /repo worktree remove --force "$WT" >/dev/null 2>&1; rm -rf "$WT"
-cp "$SRC/patch.diff" "$OUT/patch.diff"; cp "$DEMO" "$OUT/demo.py"; cp "$SRC/notes.md" "$OUT/notes.md" 2>/dev/null
+[ -z "$TAG" ] && [ "$SRC" != "$OUT" ] && { cp "$SRC/patch.diff" "$OUT/patch.diff"; cp "$DEMO" "$OUT/demo.py"; cp "$SRC/notes.md" "$OUT/notes.md" 2>/dev/null; }
 echo "$ID $M: demo clean rc=$(cat $LOG/demo_clean.rc) patched rc=$(cat $LOG/demo_patched.rc); suite: $(cat $LOG/suite.out); check rc=$(cat $LOG/check.rc): $(grep -m1 VIOLATION $LOG/check.out)"
